@@ -101,6 +101,7 @@ func runC05(r *core.Run) {
 	}
 	lengthSub(r, "lengths/all+attr+autoid", core.MustCfg("all+attr+autoid"), core.Pick(r, 1100, 2200), func(s *core.Sub, cv *core.Conv, w []byte) { c05Case(s, cv, w) })
 	replSub(r, "replication/all+attr+autoid", core.MustCfg("all+attr+autoid"), core.Pick(r, 150, 300), func(s *core.Sub, cv *core.Conv, w []byte) { c05Case(s, cv, w) })
+	attrEntrySub(r, "attribute-entries/all+attr+autoid", core.MustCfg("all+attr+autoid"), 3, func(s *core.Sub, cv *core.Conv, w []byte) { c05Case(s, cv, w) })
 	attrSub(r, "attributes/all+attr+autoid", core.MustCfg("all+attr+autoid"), core.Pick(r, 4, 5), func(s *core.Sub, cv *core.Conv, w []byte) { c05Case(s, cv, w) })
 	for _, cn := range []string{"core", "all+attr+autoid"} {
 		nestSub(r, "nesting/"+cn, core.MustCfg(cn), core.Pick(r, 3, 4), func(s *core.Sub, cv *core.Conv, w []byte) { c05Case(s, cv, w) })
